@@ -26,9 +26,33 @@ use crate::Value;
 ///
 /// The most natural way to traverse a singly linked list is probably by using
 /// the `list_iter` method.
-#[derive(PartialEq, Clone)]
+#[derive(PartialEq)]
 pub struct Cons {
     inner: Box<(Value, Value)>,
+}
+
+// `Clone` walks along the `cdr` chain in a loop instead of being derived, so
+// that long lists do not overflow the stack (see also the `Drop`
+// implementation below).
+impl Clone for Cons {
+    fn clone(&self) -> Self {
+        let mut head = Cons::new(self.car().clone(), Value::Null);
+        let mut tail = &mut head;
+        let mut cursor = self;
+        loop {
+            match cursor.cdr() {
+                Value::Cons(next) => {
+                    tail.set_cdr(Cons::new(next.car().clone(), Value::Null));
+                    tail = tail.cdr_mut().as_cons_mut().unwrap();
+                    cursor = next;
+                }
+                rest => {
+                    tail.set_cdr(rest.clone());
+                    return head;
+                }
+            }
+        }
+    }
 }
 
 impl fmt::Debug for Cons {
